@@ -9,3 +9,101 @@ package container
 //@   props C15 C16
 //@   ensures fresh(r0) && len(r0) == len(v) && off(r0) == 0
 //@   ensures forall(i, 0, len(v), r0[i] == v[i])
+
+// ---- C14: ring buffer = bounded FIFO queue ----
+
+//@ func SliceFill(s []V, v V)
+//@   props C14
+//@   modifies s[*]
+//@   ensures forall(i, 0, len(s), s[i] == v)
+//@   loop 1
+//@     invariant 0 - 1 <= rangeindex && rangeindex <= len(s) - 1
+//@     invariant forall(i, 0, rangeindex + 1, s[i] == v)
+//@     decreases len(s) - rangeindex
+//@   loop 2
+//@     invariant 1 <= j && len(s) >= 50
+//@     invariant forall(i, 0, min(j, len(s)), s[i] == v)
+//@     decreases len(s) - j
+
+// abstract view: n() elements, elem(j) the j-th oldest
+//@ spec func (r *ringBuffer[V]) n() int = ite(r.r <= r.w, r.w - r.r, len(r.buf) - (r.r - r.w))
+//@ spec func (r *ringBuffer[V]) slot(j int) int = ite(r.r + j >= len(r.buf), r.r + j - len(r.buf), r.r + j)
+//@ spec func (r *ringBuffer[V]) elem(j int) V = r.buf[r.slot(j)]
+//@ pred (r *ringBuffer[V]) live(i int) = ite(r.r <= r.w, r.r <= i && i < r.w, i >= r.r || i < r.w)
+// representation invariant; the last conjunct is "consumed slots no longer reference the consumed values"
+//@ pred (r *ringBuffer[V]) wf() = r != nil && len(r.buf) >= 1 && 0 <= r.r && r.r < len(r.buf) && 0 <= r.w && r.w < len(r.buf) && forall(i, 0, len(r.buf), !r.live(i) ==> r.buf[i] == zero(V))
+// the storage is not replaced
+//@ pred (r *ringBuffer[V]) sameStore() = sameArray(r.buf, old(r.buf)) && off(r.buf) == old(off(r.buf)) && len(r.buf) == old(len(r.buf)) && cap(r.buf) == old(cap(r.buf))
+
+//@ func NewRingBuffer(size uint) *ringBuffer[V]
+//@   props C14
+//@   ensures size < 1<<64 - 1 ==> fresh(r0) && r0.wf() && r0.n() == 0 && len(r0.buf) - 1 == size
+//@   ensures maxuint: size == 1<<64 - 1 ==> fresh(r0) && r0.wf() && r0.n() == 0 && len(r0.buf) - 1 == size
+
+//@ func (r *ringBuffer[V]) Len() int
+//@   props C14
+//@   requires r.wf()
+//@   ensures r0 == r.n()
+
+//@ func (r *ringBuffer[V]) Cap() int
+//@   props C14
+//@   requires r.wf()
+//@   ensures r0 == len(r.buf) - 1
+
+//@ func (r *ringBuffer[V]) Write(v V) error
+//@   props C14
+//@   requires r.wf()
+//@   modifies r.w, r.buf[*]
+//@   ensures r.wf() && r.sameStore() && r.r == old(r.r)
+//@   ensures old(r.n()) == len(r.buf) - 1 ==> errIs(r0, errors.ErrExhausted) && r.w == old(r.w) && forall(i, 0, len(r.buf), r.buf[i] == old(r.buf[i]))
+//@   ensures old(r.n()) <  len(r.buf) - 1 ==> r0 == nil && r.n() == old(r.n()) + 1 && forall(j, 0, old(r.n()), r.elem(j) == old(r.elem(j))) && r.elem(old(r.n())) == v
+
+//@ func (r *ringBuffer[V]) Read() (V, error)
+//@   props C14
+//@   requires r.wf()
+//@   modifies r.r, r.buf[*]
+//@   ensures r.wf() && r.sameStore() && r.w == old(r.w)
+//@   ensures old(r.n()) == 0 ==> r1 == io.EOF && r0 == zero(V) && r.n() == 0 && r.r == old(r.r)
+//@   ensures old(r.n()) >  0 ==> r1 == nil && r0 == old(r.elem(0)) && r.n() == old(r.n()) - 1 && forall(j, 0, r.n(), r.elem(j) == old(r.elem(j + 1)))
+
+//@ func (r *ringBuffer[V]) At(idx int) V
+//@   props C14
+//@   requires r.wf()
+//@   panics idx < 0 || idx >= r.n()
+//@   ensures r0 == r.elem(idx)
+
+//@ func (r *ringBuffer[V]) Skip(n int) int
+//@   props C14
+//@   requires r.wf()
+//@   modifies r.r, r.buf[*]
+//@   ensures r.wf() && r.sameStore() && r.w == old(r.w)
+//@   ensures r0 == ite(n <= 0, 0, min(n, old(r.n())))
+//@   ensures r.n() == old(r.n()) - r0 && forall(j, 0, r.n(), r.elem(j) == old(r.elem(j + r0)))
+//@   loop 1
+//@     invariant r.wf() && r.sameStore() && r.w == old(r.w) && 0 <= res && r.n() == old(r.n()) - res
+//@     invariant min(max(n, 0), r.n()) == ite(n0 <= 0, 0, min(n0, old(r.n()))) - res
+//@     invariant r.r == old(r.slot(res)) && forall(i, 0, len(r.buf), r.live(i) ==> r.buf[i] == old(r.buf[i]))
+//@     decreases r.n()
+
+//@ func (r *ringBuffer[V]) Clear()
+//@   props C14
+//@   requires r.wf()
+//@   modifies r.r, r.buf[*]
+//@   ensures r.wf() && r.sameStore() && r.n() == 0
+
+//@ func (r *ringBuffer[V]) ReadN(dst []V) int
+//@   props C14
+//@   requires r.wf() && disjoint(dst, r.buf)
+//@   modifies r.r, r.buf[*], dst[*]
+//@   ensures r.wf() && r.sameStore() && r.w == old(r.w)
+//@   ensures r0 == min(len(dst), old(r.n()))
+//@   ensures forall(j, 0, r0, dst[j] == old(r.elem(j)))
+//@   ensures forall(j, r0, len(dst), dst[j] == old(dst[j]))
+//@   ensures r.n() == old(r.n()) - r0 && forall(j, 0, r.n(), r.elem(j) == old(r.elem(j + r0)))
+//@   loop 1
+//@     invariant r.wf() && r.sameStore() && r.w == old(r.w) && 0 <= res && res <= len(dst0) && r.n() == old(r.n()) - res
+//@     invariant sameArray(dst, dst0) && off(dst) == off(dst0) + res && len(dst) == len(dst0) - res && cap(dst) == cap(dst0) - res
+//@     invariant forall(j, 0, res, dst0[j] == old(r.elem(j)))
+//@     invariant forall(j, res, len(dst0), dst0[j] == old(dst0[j]))
+//@     invariant r.r == old(r.slot(res)) && forall(i, 0, len(r.buf), r.live(i) ==> r.buf[i] == old(r.buf[i]))
+//@     decreases r.n()
